@@ -426,13 +426,31 @@ def noBuiltinField (m : ClassModel) : Bool := !m.isEmpty && !hasBuiltinField m
 
 /-! ## observation (what the correspondence compares) -/
 
+/-- The class of a column's SQL type, as far as the generated `Mapped[...]` annotation / explicit column type determine
+it: key (primary / foreign key), builtin scalar (`int`, `float`, `str`, `bool`), enum (`sqlalchemy.Enum` derived from the
+annotation `Mapped[module.TheEnum]` — for EVERY `enum.Enum` subclass, also `IntEnum`, `(str, Enum)`, `StrEnum`),
+datetime, JSON, custom (`TypeDecorator` of `type_mappings`). -/
+inductive ColTy | key | builtin | enum | datetime | json | custom
+  deriving DecidableEq, Repr
+
 structure ObsTable where
   name : Name
   cls : Name
   base : Option Name
-  /-- column names with a marker: `?` Optional source field and nullable column, `!` Optional but not nullable -/
-  cols : List (Name × Option Bool)
+  /-- column names with a marker (`?` Optional source field and nullable column, `!` Optional but not nullable) and the
+  class of the column type -/
+  cols : List (Name × Option Bool × ColTy)
   deriving DecidableEq, Repr
+
+/-- the type class of a generated column: a builtin column is typed by its annotation (the module it names), a custom
+column by the `TypeDecorator` it imports (`customTypes`) or else it is the JSON column of `create_json_column` -/
+def Attr.colTy (a : Attr) : ColTy :=
+  match a.kind with
+  | .fkCol _ => .key
+  | .rel _ _ _ => .key
+  | .builtinCol =>
+    if a.mods.contains .model then .enum else if a.mods.contains .datetime then .datetime else .builtin
+  | .customCol => if a.mods.contains .customTypes then .custom else .json
 
 structure Obs where
   tables : List ObsTable
@@ -457,8 +475,9 @@ def polyOk (s : Schema) : Bool :=
 def observe (s : Schema) : Obs :=
   { tables := s.tables.map (fun t =>
       { name := t.name, cls := t.cls, base := t.base
-        cols := (pkName, none) :: (if t.polyOn then [(polyName, none)] else []) ++
-          (t.attrs.filter Attr.isColumn).map (fun a => (a.name, if a.optional then some a.nullable else none)) })
+        cols := (pkName, none, .key) :: (if t.polyOn then [(polyName, none, .builtin)] else []) ++
+          (t.attrs.filter Attr.isColumn).map
+            (fun a => (a.name, if a.optional then some a.nullable else none, a.colTy)) })
     assocs := s.assocs.map (fun a => (a.name, a.leftTable, a.rightTable))
     rels := s.tables.flatMap (fun t => t.attrs.filterMap (fun a => match a.kind with
       | .rel tg many sec => some (t.name, a.name, tg, many, sec)
@@ -494,6 +513,11 @@ def isColumnKind : Kind → Bool
 def optOf : Kind → Bool
   | .scalar _ o => o | .enum o => o | .datetime o => o | .ref _ o => o | .custom o => o | _ => false
 
+/-- the class of the column type the property demands for a field of this kind -/
+def tyOf : Kind → ColTy
+  | .scalar _ _ => .builtin | .enum _ => .enum | .datetime _ => .datetime | .jsonList _ => .json
+  | .custom _ => .custom | _ => .key
+
 def dao (n : Name) : Name := n ++ ['D', 'A', 'O']
 
 /-- The schema facts the property demands for `m`. -/
@@ -502,11 +526,11 @@ def expected (m : ClassModel) : Obs :=
   let isParent (c : Class) := m.any (fun d => d.base == some c.name)
   { tables := m.map (fun c =>
       { name := dao c.name, cls := c.name, base := baseOf c
-        cols := (pkName, none) :: (if c.base.isNone && isParent c then [(polyName, none)] else []) ++
+        cols := (pkName, none, .key) :: (if c.base.isNone && isParent c then [(polyName, none, .builtin)] else []) ++
           (introduced m c).flatMap (fun f => match f.kind with
-            | .ref t o => if mapped m t then [(f.name ++ ['_', 'i', 'd'], if o then some true else none)] else []
+            | .ref t o => if mapped m t then [(f.name ++ ['_', 'i', 'd'], if o then some true else none, .key)] else []
             | .coll _ => []
-            | k => [(f.name, if optOf k then some true else none)]) })
+            | k => [(f.name, if optOf k then some true else none, tyOf k)]) })
     assocs := m.flatMap (fun c => (introduced m c).flatMap (fun f => match f.kind with
       | .coll t => if mapped m t then
           [(lower (dao c.name) ++ ['_'] ++ f.name ++ assocSuffix, dao c.name, dao t)] else []
